@@ -83,12 +83,19 @@ for variant, cls in (('inverse', 'KFACInverseLayer'), ('eigen', 'KFACEigenLayer'
              over_layers('implies(l._grad is not None, len(awaited(l._grad).shape) == 2)'))
             for lbl, body in MUT_COMMON + MUT_VARIANT[variant]] + [('own_state_stable', STABLE)]
     PRE = [('this_layer', 'layer is flayer(self, len(self._layers) - 1 - i)'),
+
            ('this_layer_configured', 'layer_config_ok(layer)'),
            ('this_layer_gradients', MUT_COMMON[0][1].replace('l.', 'layer.'))]
+    HINT2 = [('this_layer_preconditioned_with_the_current_damping',
+              'implies(wa_is_grad_worker(self._assignment, name), same(layer.gh_pg_damping, D0))'),
+             ('earlier_ones_keep_theirs', "all(implies(wa_is_grad_worker(self._assignment, fname(self, m)), same(flayer(self, m).gh_pg_damping, D0)) "
+                                          "for m in range(len(self._layers) - i, len(self._layers)))")]
     HINT3 = [('this_layer', 'layer is flayer(self, len(self._layers) - 1 - i)'), ('this_layer_consumed', 'layer._grad is None'),
              ('earlier_ones_stay_consumed', 'all(flayer(self, m)._grad is None for m in range(len(self._layers) - i, len(self._layers)))')]
     KEPT_SO = ('second_order_identity_kept_off_schedule', f'implies(not ({INV_STEP}), all(' + so_identity_kept(L_, variant) + ' for m in self._layers))')
     REFR = ('refreshed_on_schedule', f'implies({INV_STEP}, all(' + refreshed(L_, 'self._layers[m][0]', 'D0') + ' for m in self._layers))')
+    PGD = ('preconditioned_with_the_current_damping',
+           f"all(implies(wa_is_grad_worker(self._assignment, self._layers[m][0]), same({L_}.gh_pg_damping, D0)) for m in self._layers)")
     KEPT_F = ('factors_kept_off_schedule', f'implies(not {FAC_STEP}, all(' + factors_identity_kept(L_) + ' for m in self._layers))')
     contract(
         f'{P}.step#{variant}', props=['C05', 'C03', 'C10', 'C13', 'C07', 'C01'],
@@ -96,6 +103,9 @@ for variant, cls in (('inverse', 'KFACInverseLayer'), ('eigen', 'KFACEigenLayer'
         requires=SELF_OK + [('layers_configured', CONFIG_OK)] + MUTS,
         may_raise=['RuntimeError', 'AssertionError', 'NonSquareTensorError'],
         lets={'D0': 'old(self.damping)'},       # the damping evaluated at the step count on entry
+        # C01: whoever preconditions does it with the damping evaluated at THIS step (the eigen method without
+        # pre-divided eigenvalues applies the damping at this point, not at refresh time)
+        call_demands={f'{cls}.preconditioned_grad': [('damping_of_this_step', 'same(damping, D0)')]},
         ensures=[
             ('step_count_grows_by_one', 'self._steps == old(self._steps) + 1'),
             ('accumulation_counters_reset', 'len(self._mini_steps) == 0'),
@@ -116,7 +126,7 @@ for variant, cls in (('inverse', 'KFACInverseLayer'), ('eigen', 'KFACEigenLayer'
             ('no_reduction_left_pending', 'nothing_pending(self._tdc)'),
             ('communicator_invariant', 'tdc_inv(self._tdc)'),
         ],
-        loops={f'iter:reversed(list(self._layers.values()))#{i}': dict(index='i', hints=(HINT3 if i == 3 else []), pre_hints=PRE, invariants=(INV if i < 3 else INV3) + extra) for i, extra in enumerate([
+        loops={f'iter:reversed(list(self._layers.values()))#{i}': dict(index='i', hints=(HINT3 if i == 3 else []), pre_hints=(PRE + [('this_name', 'name == fname(self, len(self._layers) - 1 - i)')] if i < 3 else PRE), invariants=(INV if i < 3 else INV3) + extra) for i, extra in enumerate([
             [],
             [('refreshed_so_far', 'all(' + refreshed('flayer(self, m)', 'fname(self, m)', 'D0') +
               ' for m in range(len(self._layers) - i, len(self._layers)))'), KEPT_F],
@@ -126,7 +136,7 @@ for variant, cls in (('inverse', 'KFACInverseLayer'), ('eigen', 'KFACEigenLayer'
         modifies=['self._steps', 'self._mini_steps', '*._a_factor', '*._g_factor', '*._a_batch', '*._g_batch', '*._grad',
                   '*._a_inv', '*._g_inv', '*._qa', '*._qg', '*._da', '*._dg', '*._dgda', '*.grad', '*.val', '*.resolved',
                   '*._allreduce_buckets', '*._tensors', '*._futures', '*._size', '*._communicated', 'ghost:trace', 'ghost:next_sid',
-                  '*.gh_a_from', '*.gh_g_from', '*.gh_a_damping', '*.gh_g_damping'],
+                  '*.gh_a_from', '*.gh_g_from', '*.gh_a_damping', '*.gh_g_damping', '*.gh_pg_damping'],
     )
 
 
@@ -214,7 +224,9 @@ for variant, cls in (('inverse', 'KFACInverseLayer'), ('eigen', 'KFACEigenLayer'
         params={'state_dict': STATE, 'compute_inverses': KBool},
         requires=[('valid_state', "'steps' in state_dict and state_dict['steps'] >= 0"),
                   ('hyperparameters_in_state_are_numbers',
-                   ' and '.join(f"implies('{h}' in state_dict, {NUMBER(chr(115) + 'tate_dict[' + repr(h) + ']')})" for h in HYP)),
+                   # kl_clip=None is a documented setting ("no scaling/clipping") and is saved as such
+                   ' and '.join(f"implies('{h}' in state_dict, " + ("state_dict['kl_clip'] is None or " if h == 'kl_clip' else '')
+                                + f"{NUMBER(chr(115) + 'tate_dict[' + repr(h) + ']')})" for h in HYP)),
                   ('layer_states_complete', "implies('layers' in state_dict, all('A' in state_dict['layers'][n] and 'G' in state_dict['layers'][n] "
                                             "and implies(state_dict['layers'][n]['A'] is not None, is_square(state_dict['layers'][n]['A'].shape)) "
                                             "and implies(state_dict['layers'][n]['G'] is not None, is_square(state_dict['layers'][n]['G'].shape)) "
